@@ -2,6 +2,7 @@
 from vlib import dtwrap
 
 ID = "C19"
+NO_COVERAGE = True      # the cases live inside a stand-alone differential script (tools/difftest_*.py), not in this module
 LEAN_MODULES = ["LhasaV.Props.C19"]
 VH_FEATURES = []
 THEOREMS = {"listing_of_archive": "full, on bytes: walking archiveWith pk es yields exactly the headers of es; the listing is head + one row group per SELECTED entry + totals of the selected entries, every mode/quiet/clock",
